@@ -683,6 +683,19 @@ def parse_fields(value: bytes) -> Generator[ParsedField, None, None]:
         )
 
 
+def _equal_or_both_nan(a: Any, b: Any) -> bool:
+    """``a == b``, except that two nan floats are equal, also inside repeated and map fields."""
+    if isinstance(a, float) and isinstance(b, float) and math.isnan(a) and math.isnan(b):
+        return True
+    if isinstance(a, list) and isinstance(b, list):
+        return len(a) == len(b) and all(map(_equal_or_both_nan, a, b))
+    if isinstance(a, dict) and isinstance(b, dict):
+        return a.keys() == b.keys() and all(
+            _equal_or_both_nan(value, b[key]) for key, value in a.items()
+        )
+    return a == b
+
+
 class ProtoClassMetadata:
     __slots__ = (
         "oneof_group_by_field",
@@ -831,12 +844,7 @@ class Message(ABC):
                 # We consider two nan values to be the same for the
                 # purposes of comparing messages (otherwise a message
                 # is not equal to itself)
-                if (
-                    isinstance(self_val, float)
-                    and isinstance(other_val, float)
-                    and math.isnan(self_val)
-                    and math.isnan(other_val)
-                ):
+                if _equal_or_both_nan(self_val, other_val):
                     continue
                 else:
                     return False
